@@ -62,6 +62,10 @@ Classify(o, ref, dflt) ==
 Fail(dec, clause, rel, err, kinds, field, cuts, exp) ==
   [dec |-> dec, clause |-> clause, rel |-> rel, err |-> err, kinds |-> kinds, field |-> field, cuts |-> cuts, exp |-> exp]
 
+\* where the whole-stream meaning is a property clause: UTF-8 responses (t.judgeSpec, decided by the header sent);
+\* a bare CR is a legal SSE terminator, for NDJSON the statement does not cover it
+SpecApplies(t) == t.judgeSpec /\ (t.mode = "sse" \/ ~HasBareCR(t.bytes))
+
 JudgeDec(t, K, d) ==
   LET ch == t.chunkings
       N == Len(ch)
@@ -92,7 +96,7 @@ JudgeDec(t, K, d) ==
     \cup
     \* the whole-stream meaning is a property clause only where the statement applies (UTF-8 event streams:
     \* t.judgeSpec); under other declared charsets only the chunk-independence relation above is judged
-    (IF specOK(U) \/ ~t.judgeSpec THEN {}
+    (IF specOK(U) \/ ~SpecApplies(t) THEN {}
      ELSE {Fail(d.name, Classify(U, ref, "C18.differs_from_spec"), "spec", U.err, {},
                 IF U.err # "none" THEN "error" ELSE DiffField(d.name, U.items, ref), <<>>, ref)})
 
@@ -108,7 +112,7 @@ Verdict(t) ==
       kind |-> "single",
       fails |-> fails,
       \* model / code disagreement that no clause depends on (reported as DRIFT)
-      specdrift |-> /\ ~t.judgeSpec
+      specdrift |-> /\ ~SpecApplies(t)
                     /\ \E i \in 1..Len(t.dec) :
                          LET d == t.dec[i] U == d.outs[d.idx[1]] IN
                          d.name # "iter_bytes" /\ ~(U.err = "none" /\ U.items \in Meanings(d.name, t.charset, t.mode, t.bytes)),
